@@ -71,8 +71,6 @@ class Rewriter(ast.NodeTransformer):
     def _local_import(self, node):
         """imports executed inside a function bind real objects at run time: route them through
         the same replacement table as the module-level imports"""
-        if not self.infunc:
-            return node
         out = [node]
         for al in node.names:
             if al.name == "*":
@@ -126,9 +124,49 @@ class Rewriter(ast.NodeTransformer):
     def visit_AsyncFunctionDef(self, node):
         return self._func(node)
 
+    def visit_Module(self, node):
+        node.body = self._stmts(node.body)
+        return node
+
+    def visit_If(self, node):
+        node.test = self.visit(node.test)
+        node.body = self._stmts(node.body)
+        node.orelse = self._stmts(node.orelse)
+        return node
+
+    def visit_Try(self, node):
+        node.body = self._stmts(node.body)
+        for h in node.handlers:
+            h.body = self._stmts(h.body)
+        node.orelse = self._stmts(node.orelse)
+        node.finalbody = self._stmts(node.finalbody)
+        return node
+
+    def visit_With(self, node):
+        for it in node.items:
+            it.context_expr = self.visit(it.context_expr)
+        node.body = self._stmts(node.body)
+        return node
+
+    visit_AsyncWith = visit_With
+
+    def visit_For(self, node):
+        node.iter = self.visit(node.iter)
+        node.body = self._stmts(node.body)
+        node.orelse = self._stmts(node.orelse)
+        return node
+
+    visit_AsyncFor = visit_For
+
+    def visit_While(self, node):
+        node.test = self.visit(node.test)
+        node.body = self._stmts(node.body)
+        node.orelse = self._stmts(node.orelse)
+        return node
+
     def visit_ClassDef(self, node):
         self.scope.append(node.name)
-        node.body = [self.visit(s) for s in node.body]
+        node.body = self._stmts(node.body)
         node.decorator_list = [self.visit(d) for d in node.decorator_list]
         node.bases = [self.visit(b) for b in node.bases]
         self.scope.pop()
@@ -175,6 +213,15 @@ class Rewriter(ast.NodeTransformer):
         if isinstance(s, ast.Tuple):
             return ast.Tuple(elts=[self._slice_expr(e) for e in s.elts], ctx=ast.Load())
         return s
+
+    def visit_Assign(self, node):
+        self.generic_visit(node)
+        if len(node.targets) == 1 and isinstance(node.targets[0], ast.Subscript):
+            t = node.targets[0]
+            return ast.copy_location(ast.Expr(ast.Call(
+                func=ast.Attribute(value=ast.Name(id="__sym__", ctx=ast.Load()), attr="setitem", ctx=ast.Load()),
+                args=[t.value, self._slice_expr(t.slice), node.value], keywords=[])), node)
+        return node
 
     def visit_Subscript(self, node):
         self.generic_visit(node)
@@ -328,6 +375,8 @@ def install():
     if _installed:
         return
     _installed = True
+    from . import engine as _E
+    _E.PATH_START_HOOKS.append(restore_state)
     from . import stubs_registry  # noqa: F401  (registers the replacements)
 
     sys.meta_path.insert(0, _Finder())
@@ -336,7 +385,9 @@ def install():
 def load(sub=""):
     """import aioswitcher_sym[.sub]"""
     install()
-    return importlib.import_module(PKG + ("." + sub if sub else ""))
+    m = importlib.import_module(PKG + ("." + sub if sub else ""))
+    snapshot_state()
+    return m
 
 
 def load_real(sub=""):
@@ -345,6 +396,55 @@ def load_real(sub=""):
         sys.path.insert(0, REPO_SRC)
     sys.dont_write_bytecode = True
     return importlib.import_module(REAL + ("." + sub if sub else ""))
+
+
+_STATE = {}
+
+
+def _containers_of(mod):
+    import types
+
+    out = []
+    for k, v in list(vars(mod).items()):
+        if k.startswith("__"):
+            continue
+        if isinstance(v, (dict, list, set)):
+            out.append(v)
+        if isinstance(v, type) and getattr(v, "__module__", "") == mod.__name__:
+            for ck, cv in list(vars(v).items()):
+                if isinstance(cv, (dict, list, set)) and not ck.startswith("__"):
+                    out.append(cv)
+                if isinstance(cv, types.FunctionType) and cv.__defaults__:
+                    out.extend(d for d in cv.__defaults__ if isinstance(d, (dict, list, set)))
+        if isinstance(v, types.FunctionType) and v.__defaults__:
+            out.extend(d for d in v.__defaults__ if isinstance(d, (dict, list, set)))
+    return out
+
+
+def snapshot_state():
+    """remember the content of every mutable module-level / class-level container of the shadow package"""
+    import copy
+
+    for name, mod in list(sys.modules.items()):
+        if name == PKG or name.startswith(PKG + "."):
+            for c in _containers_of(mod):
+                if id(c) not in _STATE:
+                    _STATE[id(c)] = (c, copy.copy(c))
+
+
+def restore_state():
+    """put module-level containers back (state written by one explored path must not leak into the next)"""
+    for c, orig in _STATE.values():
+        if c != orig or type(c) is not type(orig):
+            if isinstance(c, dict):
+                c.clear()
+                c.update(orig)
+            elif isinstance(c, list):
+                c[:] = orig
+            else:
+                c.clear()
+                c.update(orig)
+    SYM.symkeys.clear()
 
 
 def functions_encoded():
